@@ -28,6 +28,9 @@ Lemma exchange_sites_tie : gen_exchange_sites = exchange_sites.
 Proof. reflexivity. Qed.
 Lemma cancel_sites_tie : gen_cancel_sites = cancel_sites.
 Proof. reflexivity. Qed.
+(* cancel() drops the state token before it posts: what M_Retry.cancel_state_after (independent of the outcome) says *)
+Lemma cancel_release_order_tie : gen_cancel_releases_token_before_post = true.
+Proof. reflexivity. Qed.
 Lemma continuation_sites_tie : gen_continuation_sites = continuation_sites.
 Proof. reflexivity. Qed.
 Lemma unary_sites_tie : gen_unary_sites = unary_sites /\ gen_init_sites = unary_sites.
